@@ -277,7 +277,16 @@ def run_real(cfg):
     obs = {"status": "ok"}
     pool = None
     try:
-        p = gen_map.build(spec)
+        delay = cfg.get("delay")
+        counter = {}
+
+        def hook(name, kw):
+            # injected delays make other completion orders likely (still one free-running schedule per configuration)
+            import time as _t
+            counter[name] = counter.get(name, 0) + 1
+            if (delay == "first-slow" and counter[name] == 1) or (delay == "later-slow" and counter[name] > 1):
+                _t.sleep(0.03)
+        p = gen_map.build(spec, hook=hook if delay else None)
         kind = cfg["pool"]
         if kind == "thread":
             pool = cf.ThreadPoolExecutor(3)
@@ -353,6 +362,9 @@ def real_configs(tier):
                 if pool in ("process", "default-pool") and st == "dict" or (isinstance(st, dict) and "dict" in st.values() and pool in ("process", "default-pool")):
                     continue  # plain dict storage cannot cross a process boundary (pipefunc rejects it)
                 out.append({"pipe": pipe, "storage": st, "pool": pool})
+                if pool in ("thread", "process") and isinstance(st, str):
+                    for delay in ("first-slow", "later-slow"):
+                        out.append({"pipe": pipe, "storage": st, "pool": pool, "delay": delay})
     return out
 
 
